@@ -184,6 +184,73 @@ def run(ctx):
             rets = [r for r in walk_no_nested(ev_.fi.node) if isinstance(r, ast.Return) and isinstance(r.value, ast.Tuple)]
             st_ = "ok" if top or raises else ("unknown" if sets or rets else "violation")
             res.add("Y-MATCH", ev_.fi.short, "except StopIteration: self.matching_sequences = False", "records-mismatch", st_, "" if st_ == "ok" else "the construction runs out of nodes with residual degree without recording that the sequences do not match: a hyperedge filled up with zero-degree nodes has full size, so the caller cannot notice, and sample() reports an unrealisable conditioning as matching", loc(ev_.fi, h_))
+    # ---- G-DIMSEQ: the size sequence is respected even when the sequences do not match: a hyperedge whose size is DRAWN (not
+    #      taken from the size sequence) is only added when no size sequence is forced
+    with res.guard("G-DIMSEQ"):
+        res.rules["G-DIMSEQ"] = "_match_sequences adds a hyperedge of randomly drawn size only on paths where no size sequence is forced (`not force_dim_seq`)"
+        mv = ctx.view("HyMMSBMSampler._match_sequences")
+        mparams = {a.arg for a in mv.fi.params}
+        flag = next((p_ for p_ in ("force_dim_seq",) if p_ in mparams), None)
+        n_extra = 0
+
+        def nearest_def(name, at):
+            """the definition of the local `name` that reaches `at`: the closest dominating assignment / loop header"""
+            aid = mv.cfg_id(at)
+            best = None
+            for d_ in walk_no_nested(mv.fi.node):
+                tg = None
+                if isinstance(d_, ast.Assign) and len(d_.targets) == 1 and isinstance(d_.targets[0], ast.Name) and d_.targets[0].id == name:
+                    tg, val, did = d_, d_.value, mv.cfg_id(d_)
+                elif isinstance(d_, ast.For) and any(isinstance(x, ast.Name) and x.id == name for x in ast.walk(d_.target)):
+                    tg, val, did = d_, None, mv.cfg.by_ast.get(id(d_))
+                if tg is None or did is None or aid is None or did == aid or not mv.cfg.dominates(did, aid):
+                    continue
+                if best is None or mv.cfg.dominates(best[2], did):
+                    best = (tg, val, did)
+            return best
+
+        def is_drawn(e, at, depth=0):
+            if any(isinstance(x, ast.Attribute) and x.attr in ("_rng", "integers", "randint") for x in ast.walk(e)):
+                return True
+            if isinstance(e, ast.Name) and depth < 3:
+                d_ = nearest_def(e.id, at)
+                return d_ is not None and d_[1] is not None and is_drawn(d_[1], d_[0], depth + 1)
+            return False
+
+        for n in walk_no_nested(mv.fi.node):
+            if not (isinstance(n, ast.Call) and isinstance(n.func, ast.Attribute) and n.func.attr in ("append", "add") and n.args):
+                continue
+            e = n.args[0]
+            if isinstance(e, ast.Name):
+                d_ = nearest_def(e.id, n)
+                e = d_[1] if d_ is not None and d_[1] is not None else e
+                at = d_[0] if d_ is not None else n
+            else:
+                at = n
+            # the size handed to the hyperedge builder
+            sizes = [a_ for c_ in ast.walk(e) if isinstance(c_, ast.Call) and isinstance(c_.func, ast.Attribute) and c_.func.attr == "_extract_hye" for a_ in c_.args[1:2]]
+            drawn = [a_ for a_ in sizes if is_drawn(a_, at)]
+            if not drawn:
+                continue
+            n_extra += 1
+            if flag is None:
+                res.unknown("G-DIMSEQ", mv.fi.short, norm(n), "guarded", "no force_dim_seq parameter", loc(mv.fi, n))
+                continue
+            nid = mv.cfg_id(n)
+            ok = False
+            for iff in walk_no_nested(mv.fi.node):
+                if not isinstance(iff, (ast.If, ast.While)):
+                    continue
+                t_i = mv.inline(iff.test)
+                for atom, _ in _atoms(t_i, True):
+                    if isinstance(atom, ast.Name) and atom.id == flag:
+                        lab = _implied_branch(t_i, atom, False)
+                        tid = mv.cfg.by_ast.get(id(iff.test))
+                        if lab and tid is not None and mv.cfg.branch_dominated(tid, lab, nid):
+                            ok = True
+            res.check(ok, "G-DIMSEQ", mv.fi.short, norm(n), "guarded", f"a hyperedge of randomly drawn size (`{norm(drawn[0])[:60]}`) is added on a path where the size sequence may be forced: the sample then has more hyperedges of that size than the conditioned count", loc(mv.fi, n))
+        if n_extra == 0:
+            res.unknown("G-DIMSEQ", mv.fi.short, "hye_list.append(self._extract_hye(nodes_with_deg, <drawn size>, ...))", "guarded", "no top-up with hyperedges of drawn size recognised", loc(mv.fi, mv.fi.node))
     with res.guard("Y-WEIGHTED"):
         v = ctx.view("HyMMSBMSampler.sample")
         f = v.fi.short
